@@ -33,9 +33,14 @@
     - TreeWalker: parentNode, firstChild and lastChild are proved equal to the specification (guarded by F27 for the
       code as it is); nextSibling, previousSibling, nextNode, previousNode are compared with [sp_w_target_at] by
       correspondence only (plus T14_walker_sample, a finite sweep);
-    - DOMNodeIDMap is proved in full (T14_idmap_full). *)
+    - DOMNodeIDMap is proved in full (T14_idmap_full);
+    - Range content operations (last section): toString / cloneContents / extractContents / deleteContents / insertNode
+      are modelled function by function (ModelR14.v) and specified on the rose tree (SpecR14.v); proved: cloneContents and
+      toString change nothing (T14_clone_contents_pure), the same-text-node deletion (T14_delete_same_text_partial), the
+      two known findings F30/F31 (theorems ..._refuted); model = specification for these operations in general is NOT proved --
+      it is compared on every run by the correspondence (library = model, repaired model = specification). *)
 From Coq Require Import List NArith ZArith Arith Bool Lia.
-From XV Require Import C14.Spec14 C14.Hist14 C14.Model14 C14.Cert14 C14.IdMap14 C14.Proofs14a C14.Proofs14b C14.Proofs14c C14.Proofs14d C14.Proofs14e C14.Tree14 C14.Nav14 C14.Nav14b C14.Nav14c C14.Nav14d C14.Proofs14f C14.Proofs14g C14.Walk14 C14.Walk14b C14.Walk14c.
+From XV Require Import C14.Spec14 C14.Hist14 C14.Model14 C14.Cert14 C14.IdMap14 C14.Proofs14a C14.Proofs14b C14.Proofs14c C14.Proofs14d C14.Proofs14e C14.Tree14 C14.Nav14 C14.Nav14b C14.Nav14c C14.Nav14d C14.Proofs14f C14.Proofs14g C14.Walk14 C14.Walk14b C14.Walk14c C14.SpecR14 C14.ModelR14 C14.ProofsR14.
 Import ListNotations.
 
 Definition fx_as_is := {| fx_iter_fresh := false; fx_ins_text := false; fx_wprev := false; fx_wshow := false; fx_split := false |}.
@@ -626,3 +631,79 @@ Definition walker_sample_ok : bool :=
         else true) [1; 2; 3; 4; 5; 6]) [true; false]) [65535; 1; 4; 133]%N) vs) vs) vs) vs.
 Example T14_walker_sample : walker_sample_ok = true.
 Proof. vm_compute. reflexivity. Qed.
+
+(* ============================================================================================================ *)
+(** * Range content operations (SpecR14.v = DOM Range 2.6-2.9 on the rose tree, ModelR14.v = DOMRangeImpl::toString,
+      traverseContents and its ten helpers, insertNode) *)
+
+(** cloneContents() and toString() are observers: whatever the range selects -- all four container relationships
+    of traverseContents, partially selected character data, boundary walks of any depth -- the document, every
+    iterator, walker, tag list and range (the operating one included) are exactly what they were *)
+Theorem T14_clone_contents_pure : forall deld k s s' frag,
+  xr_traverse deld HClone k s = Some (s', frag) -> s' = s.
+Proof. exact clone_contents_pure. Qed.
+Print Assumptions T14_clone_contents_pure.
+Theorem T14_clone_step_pure : forall t d s k a s', mx_step t d s (XClone k) = Some (a, s') -> s' = s.
+Proof. exact mx_step_clone_pure. Qed.
+Print Assumptions T14_clone_step_pure.
+Theorem T14_tostring_step_pure : forall t d s k a s', mx_step t d s (XStr k) = Some (a, s') -> s' = s.
+Proof. exact mx_step_str_pure. Qed.
+Print Assumptions T14_tostring_step_pure.
+(** non-vacuity: a range from inside a text node to inside another one below a different parent is cloned
+    (two partially selected elements with their partial text), and the state is untouched *)
+Definition h_content : list xop :=
+  [XBase (ONewE [98%N]); XBase (OIns 1 2 None); XBase (ONewT [104;101;108;108;111]%N); XBase (OIns 2 3 None);
+   XBase (ONewE [99%N]); XBase (OIns 1 4 None); XBase (ONewT [119;111;114;108;100]%N); XBase (OIns 4 5 None);
+   XBase (ONewC [120%N]); XBase (OIns 1 6 (Some 4));
+   XBase ORg; XBase (ORSetS 0 3 2); XBase (ORSetE 0 5 3)].
+Example T14_clone_example :
+  map fst (fst (mx_run fx_current false false tab_all (h_content ++ [XClone 0]))) =
+  map fst (fst (mx_run fx_current false false tab_all h_content)) ++
+  [XRFrag [FT None KElem [98%N] [FT None KText [108;108;111]%N []]; FT None KComment [120%N] [];
+           FT None KElem [99%N] [FT None KText [119;111;114]%N []]]].
+Proof. vm_compute. reflexivity. Qed.
+
+(** the specification of a collapsed range: nothing is selected *)
+Theorem T14_fragment_collapsed : forall m b orig, sp_fragment m {| r_s := b; r_e := b |} orig = [].
+Proof. exact sp_fragment_collapsed. Qed.
+Print Assumptions T14_fragment_collapsed.
+
+(** deleteContents with both boundary points in one character-data node = deleteData(start, end - start), whose
+    fix-up is Range 2.12.2 (T14_range_moves_delete_text), then collapse(true) *)
+Theorem T14_delete_same_text_partial : forall d k s, m_is_cd (ms_f s) (mr_sc (rg_of s k)) = true ->
+  mr_sc (rg_of s k) = mr_ec (rg_of s k) -> mr_so (rg_of s k) <> mr_eo (rg_of s k) ->
+  option_map fst (xr_traverse d HDelete k s) =
+  Some (xr_steps (m_del_text s (mr_sc (rg_of s k)) (mr_so (rg_of s k)) (mr_eo (rg_of s k) - mr_so (rg_of s k))) [ORColl k true]).
+Proof. exact delete_same_text. Qed.
+Print Assumptions T14_delete_same_text_partial.
+
+(** the repaired model IS the specification on a history that exercises toString, cloneContents, extractContents with
+    a common-ancestor range, insertNode with a split, and deleteContents (finite sample; the unbounded statement
+    model = specification for the content operations is NOT proved: it is the subject of the correspondence) *)
+Definition h_content2 : list xop :=
+  h_content ++ [XBase ORg; XBase (ORSetS 1 3 1); XBase (ORSetE 1 5 4); XStr 0; XClone 0; XExt 0; XStr 1;
+                XBase (ONewE [100%N]); XInsN 1 7; XBase (OVal 1); XDel 1; XBase (OVal 1); XBase (OVal 2)].
+Example T14_content_sample :
+  fst (mx_run fx_repaired true true tab_all h_content2) = spx_run tab_all h_content2 /\
+  snd (mx_run fx_repaired true true tab_all h_content2) = false /\ length (spx_run tab_all h_content2) = 26.
+Proof. vm_compute. repeat split; reflexivity. Qed.
+
+(** KNOWN FINDING F30 (code as it is): toString() appends comments; the specification (and the model restricted to
+    Text nodes) does not *)
+Theorem T14_tostring_comment_refuted :
+  exists h, fst (mx_run fx_repaired false true tab_all h) <> spx_run tab_all h /\
+            fst (mx_run fx_repaired true true tab_all h) = spx_run tab_all h.
+Proof. exists (h_content ++ [XStr 0]). split; [vm_compute; discriminate|vm_compute; reflexivity]. Qed.
+Print Assumptions T14_tostring_comment_refuted.
+
+(** KNOWN FINDING F31 (code as it is): deleteContents truncates a partially selected boundary text node with
+    setNodeValue: ANOTHER live range with a boundary point in the kept part of the node is thrown to offset 0;
+    repaired (fixes/C14-range-traverse-text.patch, deleteData) the model is the specification *)
+Theorem T14_delete_other_range_refuted :
+  exists h, fst (mx_run fx_repaired true false tab_all h) <> spx_run tab_all h /\
+            fst (mx_run fx_repaired true true tab_all h) = spx_run tab_all h.
+Proof.
+  exists (h_content ++ [XBase ORg; XBase (ORSetS 1 3 1); XBase (ORSetE 1 5 4); XDel 0]).
+  split; [vm_compute; discriminate|vm_compute; reflexivity].
+Qed.
+Print Assumptions T14_delete_other_range_refuted.
